@@ -137,6 +137,20 @@ def lv(x):
     return show(x)
 
 
+def step_of(kind, n):
+    """+1 / -1 when the write (kind, node) as yielded by writes() moves its target by one (x++, ++x, x += 1, x = x + 1; likewise down),
+    else None."""
+    if kind == "incdec":
+        return 1 if "++" in n["op"] else -1
+    if n.get("k") == "bin" and n["op"] in ("+=", "-=") and int_value(strip_casts(n["r"])) == 1:
+        return 1 if n["op"] == "+=" else -1
+    if n.get("k") == "bin" and n["op"] == "=":
+        r = strip_casts(n["r"])
+        if r.get("k") == "bin" and r["op"] in ("+", "-") and lv(strip_casts(r["l"])) == lv(n["l"]) and int_value(strip_casts(r["r"])) == 1:
+            return 1 if r["op"] == "+" else -1
+    return None
+
+
 def root_var(x):
     """The variable at the root of an access path, or None."""
     x = strip_casts(x)
@@ -276,6 +290,18 @@ def writes(x):
     for n in walk(x):
         k = n.get("k")
         if k == "bin" and n["op"] in ASSIGN_OPS:
+            # a step by one is one idiom however it is spelt: x += 1 and x = x + 1 are reported like ++x
+            st = None
+            if n["op"] in ("+=", "-=") and int_value(strip_casts(n["r"])) == 1:
+                st = "pre++" if n["op"] == "+=" else "pre--"
+            elif n["op"] == "=":
+                r = strip_casts(n["r"])
+                if isinstance(r, dict) and r.get("k") == "bin" and r["op"] in ("+", "-") and int_value(strip_casts(r["r"])) == 1 \
+                        and lv(strip_casts(r["l"])) and lv(strip_casts(r["l"])) == lv(strip_casts(n["l"])):
+                    st = "pre++" if r["op"] == "+" else "pre--"
+            if st:
+                yield (strip_casts(n["l"]), "incdec", {"k": "un", "op": st, "e": n["l"], "line": n.get("line"), "t": n.get("t"), "w": n.get("w"), "s": n.get("s"), "spelt": n})
+                continue
             yield (strip_casts(n["l"]), "assign" if n["op"] == "=" else "compound", n)
         elif k == "un" and n["op"] in ("post++", "post--", "pre++", "pre--"):
             yield (strip_casts(n["e"]), "incdec", n)
